@@ -150,6 +150,9 @@ PIECES = [
     ('\\x2A', L('x2A'), (('star',),)), ('\\N{LATIN SMALL LETTER A}', L('N{LATIN SMALL LETTER A}'), L('a')), ('\\N{latin small letter a}', L('N{latin small letter a}'), L('a')),
     ('\\0', L('0'), L('\x00')), ('\\00', L('00'), L('\x00')), ('\\000', L('000'), L('\x00')), ('\\7', L('7'), L('\x07')),
     ('\\x00', L('x00'), L('\x00')), ('\\377', L('377'), L('\xff')), ('\\x7f', L('x7f'), L('\x7f')), ('\\08', L('08'), L('\x008')),
+    # an escape that decodes to the backslash itself: the decoded backslash escapes what follows
+    ('\\x5c*', L('x5c') + (('star',),), L('*')), ('\\134?', L('134') + (('q',),), L('?')), ('\\u005cb', L('u005cb'), L('b')),
+    ('\\x5c\\x5c', L('x5cx5c'), L('\\')), ('\\N{REVERSE SOLIDUS}*', L('N{REVERSE SOLIDUS}') + (('star',),), L('*')),
     ('a', L('a'), L('a')), ('1', L('1'), L('1')), ('x', L('x'), L('x')), ('4', L('4'), L('4')),
     ('*', (('star',),), (('star',),)), ('?', (('q',),), (('q',),)),
     ('[\\x41b]', (('set', False, (('c', 'x'), ('c', '4'), ('c', '1'), ('c', 'b'))),),
